@@ -186,7 +186,7 @@ impl Runner {
                             match v { V::Array(l) if l.len() == q.len() => V::Array(l.into_iter().zip(q.iter()).map(|(x, n)| canon_reply(n, x)).collect()), x => x }
                         } else {
                             if matches!(&v, V::Simple(s) if s == b"QUEUED") { self.queues.entry(c).or_default().push(nm.clone()); }
-                            if nm == b"MULTI" || nm == b"DISCARD" { self.queues.remove(&c); }
+                            if (nm == b"MULTI" || nm == b"DISCARD") && !matches!(&v, V::Error(_)) { self.queues.remove(&c); }   // a refused nested MULTI keeps the queue
                             v
                         };
                         let mut out = vec![]; canon_reply(&nm, v).enc(&mut out); (newop, out)
